@@ -616,9 +616,11 @@ impl LyNative for IterReduce {
 
     let mut iter = args[0].to_obj().to_enumerator();
 
-    while !is_falsey(iter.next(hooks)?) {
+    while !is_falsey(iter.next(hooks).inspect_err(|_| hooks.pop_roots(2))?) {
       let current = iter.current();
-      accumulator = hooks.call(callable, &[accumulator, current])?;
+      accumulator = hooks
+        .call(callable, &[accumulator, current])
+        .inspect_err(|_| hooks.pop_roots(2))?;
     }
 
     hooks.pop_roots(2);
@@ -656,9 +658,11 @@ impl LyNative for IterEach {
 
     hooks.push_root(callable);
 
-    while !is_falsey(iter.next(hooks)?) {
+    while !is_falsey(iter.next(hooks).inspect_err(|_| hooks.pop_roots(1))?) {
       let current = iter.current();
-      hooks.call(callable, &[current])?;
+      hooks
+        .call(callable, &[current])
+        .inspect_err(|_| hooks.pop_roots(1))?;
     }
 
     hooks.pop_roots(1);
@@ -713,7 +717,7 @@ impl Enumerate for ZipIterator {
 
     hooks.push_root(results);
     for (iter, slot) in &mut self.iters.iter_mut().zip(results.iter_mut()) {
-      let next = iter.next(hooks)?;
+      let next = iter.next(hooks).inspect_err(|_| hooks.pop_roots(1))?;
 
       if is_falsey(next) {
         hooks.pop_roots(1);
@@ -884,9 +888,12 @@ impl LyNative for IterAll {
 
     hooks.push_root(callable);
 
-    while !is_falsey(iter.next(hooks)?) {
+    while !is_falsey(iter.next(hooks).inspect_err(|_| hooks.pop_roots(1))?) {
       let current = iter.current();
-      if is_falsey(hooks.call(callable, &[current])?) {
+      let result = hooks
+        .call(callable, &[current])
+        .inspect_err(|_| hooks.pop_roots(1))?;
+      if is_falsey(result) {
         hooks.pop_roots(1);
         return Call::Ok(val!(false));
       }
@@ -906,9 +913,12 @@ impl LyNative for IterAny {
 
     hooks.push_root(callable);
 
-    while !is_falsey(iter.next(hooks)?) {
+    while !is_falsey(iter.next(hooks).inspect_err(|_| hooks.pop_roots(1))?) {
       let current = iter.current();
-      if !is_falsey(hooks.call(callable, &[current])?) {
+      let result = hooks
+        .call(callable, &[current])
+        .inspect_err(|_| hooks.pop_roots(1))?;
+      if !is_falsey(result) {
         hooks.pop_roots(1);
         return Call::Ok(val!(true));
       }
@@ -931,7 +941,7 @@ impl LyNative for IterToList {
 
     hooks.push_root(list);
 
-    while !is_falsey(iter.next(hooks)?) {
+    while !is_falsey(iter.next(hooks).inspect_err(|_| hooks.pop_roots(1))?) {
       list.push(iter.current(), &hooks.as_gc());
     }
 
